@@ -457,12 +457,38 @@ def replay_backend(p):
     return bad, f"obs_length={L!r}: tchans={T}, df={fr.df}, dt={fr.dt}"
 
 
-def replay_simple(p):
-    return False, 'no concrete oracle for this obligation'
+def replay_orient(p):
+    import setigen as stg
+    msgs = []
+    for (T, Fc) in ((p.get('T', 2), p.get('Fc', 3)), (4, 9)):
+        a = stg.Frame(fchans=Fc, tchans=T, df=2.0, dt=4.0, fch1=4096.0, ascending=True, seed=1)
+        b = stg.Frame(fchans=Fc, tchans=T, df=2.0, dt=4.0, fch1=4096.0 + (Fc - 1) * 2.0, ascending=False, seed=1)
+        if not (np.array_equal(a.fs, b.fs) and np.array_equal(a.ts, b.ts) and a.fmin == b.fmin and a.fmax == b.fmax and a.fmid == b.fmid):
+            msgs.append(f"axes differ for {(T, Fc)}: {a.fs} vs {b.fs}")
+        kw = dict(path=stg.constant_path(4098.0, 0.2), t_profile=stg.sine_t_profile(30.0), f_profile=stg.gaussian_f_profile(3.0), bp_profile=lambda f: 1 + 1e-3 * (f - 4096.0),
+                  doppler_smearing=bool(p.get('smear')), smearing_subsamples=2, integrate_f_profile=True, f_subsamples=2)
+        sa, sb = a.add_signal(**kw), b.add_signal(**kw)
+        if not np.allclose(sa, sb, rtol=1e-12, atol=1e-12) or not np.allclose(a.data, b.data, rtol=1e-12, atol=1e-12):
+            msgs.append(f"injected data differ between orientation flags for {(T, Fc)}")
+    return bool(msgs), '; '.join(msgs) or 'orientation flags are equivalent'
+
+
+def replay_units(p):
+    import astropy.units as u
+    import setigen as stg
+    cases = [dict(df=2.0 * u.Hz, dt=4.0 * u.s, fch1=4096.0 * u.Hz), dict(df=0.002 * u.kHz, dt=4000.0 * u.ms, fch1=4.096 * u.kHz), dict(df=-2.0 * u.Hz, dt=4.0 * u.s, fch1=0.004096 * u.MHz)]
+    msgs = []
+    for k, cs in enumerate(cases):
+        for asc in (False, True):
+            fr = stg.Frame(fchans=5, tchans=3, ascending=asc, **cs)
+            ref = stg.Frame(fchans=5, tchans=3, ascending=asc, df=2.0, dt=4.0, fch1=4096.0)
+            if not (np.allclose(fr.fs, ref.fs, rtol=1e-12, atol=0) and np.allclose(fr.ts, ref.ts, rtol=1e-12) and abs(fr.df - 2.0) < 1e-12 and abs(fr.dt - 4.0) < 1e-12):
+                msgs.append(f"unit case {k} asc={asc}: fs={fr.fs} df={fr.df} dt={fr.dt}")
+    return bool(msgs), '; '.join(msgs) or 'unit-carrying arguments agree with plain numbers'
 
 
 REPLAYS = {'axes': replay_axes, 'index': replay_index, 'fp_len': replay_fp_len, 'fp_rt': replay_fp_rt, 'backend': replay_backend,
-           'units': replay_simple, 'orient': replay_simple}
+           'units': replay_units, 'orient': replay_orient}
 
 
 def main():
